@@ -34,6 +34,8 @@ OutMatches(fin, out) ==
   IF fin.ctrl.m = "ret" THEN out.k = "v" /\ Same(fin.ctrl.v, out.v)
   ELSE /\ out.k = "e" /\ out.c \in fin.ctrl.cs
        /\ ("undeclared" \in fin.ctrl.cs /\ out.c = "undeclared") => out.name = fin.ctrl.name
+       \* the payload of the error: the missing key, the function that failed
+       /\ (out.c \in {"nokey", "fnerr"} /\ fin.ctrl.name # "") => out.name = fin.ctrl.name
 
 \* a case is explained by a final configuration
 Explains(fin, r) ==
